@@ -21,7 +21,9 @@ import io
 import os
 import random
 import shutil
+import socket
 import sqlite3
+import stat
 import tempfile
 
 from harness import e3
@@ -170,6 +172,87 @@ FAMILIES = [("chain", fam_chain), ("diamond", fam_diamond), ("subplan", fam_subp
             ("newstatic", fam_newstatic), ("failing", fam_failing)]
 
 
+# ---------------------------------------------------------------------------------------------
+# Startup families: something changed SINCE THE LAST COMPLETE BUILD that only the startup
+# sequence of the next build can notice (startup.resume_from_db: reset_interrupted_steps,
+# rescan_env_vars, rescan_files + its hash jobs, rescan_nglobs; Workflow.initialize_boot).
+# The plan is unchanged, every kind of change comes ALONE in its case (two changes mask each
+# other: a step that reruns for a changed source hides a lost environment change), the commands
+# fold what they read (file contents, variable values) into what they write, and the interrupted
+# build is killed at every commit of its startup sequence.
+# ---------------------------------------------------------------------------------------------
+
+STARTUP_KINDS = ["env", "env-unset", "env-set", "env-two", "env-amended", "source", "source-delete",
+                 "glob-add", "glob-del", "out-del", "out-tamper", "plan-touch", "interrupted", "combo"]
+
+
+def _startup_project(rng):
+    work = [{"op": "amend", "env": ["C05C"]},
+            {"op": "getenv", "name": "C05C"},
+            {"op": "read", "paths": ["cfg.txt"]},
+            {"op": "write", "path": "w.out", "parts": rng.randint(1, 2)}]
+    plan = [{"op": "static", "paths": ["in.txt", "cfg.txt", "w.py", "g/"]},
+            {"op": "glob", "pattern": "g/*.dat", "static": True,
+             "foreach": [{"op": "step", "label": "cp {stem}", "inp": ["{m}"], "out": ["o_{stem}.txt"]}]},
+            {"op": "step", "label": "e1", "inp": ["in.txt"], "env": ["C05A"], "out": ["e1.txt"]},
+            {"op": "step", "label": "e2", "inp": ["e1.txt"], "env": ["C05A", "C05B"], "out": ["sub/e2.txt"],
+             "vol": (["sub/e2.log"] if rng.random() < 0.5 else [])},
+            {"op": "step", "label": "e3", "inp": ["cfg.txt"], "env": ["C05D"], "out": ["e3.txt"]},
+            {"op": "step", "label": "e4", "inp": ["e3.txt", "o_a.txt"], "out": ["e4.txt"]},
+            {"op": "run", "label": "./w.py", "inp": ["cfg.txt"], "out": ["w.out"]}]
+    cmds = {"e1": [{"op": "getenv", "name": "C05A"}, {"op": "auto", "parts": rng.randint(1, 2)}],
+            "e2": [{"op": "getenv", "name": "C05A"}, {"op": "getenv", "name": "C05B"}, {"op": "auto"}],
+            "e3": [{"op": "getenv", "name": "C05D"}, {"op": "auto", "parts": 2}]}
+    sources = {"in.txt": "i\n", "cfg.txt": "cfg\n", "g/a.dat": "a\n", "g/b.dat": "b\n"}
+    env = {"C05A": "a1", "C05B": "b1", "C05C": "c1", "C05D": None}
+    return _proj(sources, plan, scripts={"w.py": work}, commands=cmds, env=env)
+
+
+def _startup_edits(kind, rng):
+    if kind == "env":
+        return [{"op": "setenv", "name": rng.choice(["C05A", "C05B"]), "value": "changed"}]
+    if kind == "env-unset":
+        return [{"op": "setenv", "name": rng.choice(["C05A", "C05B"]), "value": None}]
+    if kind == "env-set":                                  # tracked, was unset at the last build
+        return [{"op": "setenv", "name": "C05D", "value": "d1"}]
+    if kind == "env-two":
+        return [{"op": "setenv", "name": "C05B", "value": "b2"}, {"op": "setenv", "name": "C05D", "value": "d2"}]
+    if kind == "env-amended":                              # tracked through amend(env=...)
+        return [{"op": "setenv", "name": "C05C", "value": rng.choice(["c2", None])}]
+    if kind == "source":
+        return [{"op": "write", "path": rng.choice(["in.txt", "cfg.txt", "g/b.dat"]), "content": "changed content\n"}]
+    if kind == "source-delete":
+        return [{"op": "delete", "path": rng.choice(["cfg.txt", "g/b.dat"])}]
+    if kind == "glob-add":
+        return [{"op": "write", "path": "g/c.dat", "content": "c\n"}]
+    if kind == "glob-del":
+        return [{"op": "delete", "path": "g/b.dat"}]
+    if kind == "out-del":
+        return [{"op": "delete", "path": rng.choice(["e1.txt", "e3.txt", "o_a.txt", "w.out"])}]
+    if kind == "out-tamper":
+        return [{"op": "write", "path": rng.choice(["e1.txt", "e3.txt", "o_b.txt"]), "content": "tampered with\n"}]
+    raise ValueError(kind)
+
+
+def fam_startup(rng, kind):
+    p = _startup_project(rng)
+    if kind == "interrupted":
+        # the build before the interrupted one was itself killed while a command ran: the startup of
+        # the interrupted build finds RUNNING rows (two transactions of reset_interrupted_steps)
+        return p, [{"edits": [{"op": "write", "path": "in.txt", "content": "second version\n"}],
+                    "crash": {"kind": "stage", "k": rng.randint(1, 2)}},
+                   {"edits": []}]
+    if kind == "combo":
+        kinds = rng.sample(["env", "env-amended", "source", "glob-add", "glob-del", "out-del", "out-tamper"],
+                           rng.randint(2, 3))
+        edits = [e for k in kinds for e in _startup_edits(k, rng)]
+        return p, [{"edits": edits}]
+    if kind == "plan-touch":                               # same plan, other bytes: the boot step reruns
+        plan = list(p.program["scripts"]["plan.py"])
+        return p, [{"edits": [{"op": "script", "path": "plan.py", "actions": plan + [{"op": "print", "text": "x"}]}]}]
+    return p, [{"edits": _startup_edits(kind, rng)}]
+
+
 def make_case(name: str, seed: int) -> dict:
     """A JSON-able case.  ``name`` is a family name or ``gen`` (harness/e3_gen.gen_case).
     Three seeds out of four interrupt the LAST build of the history (an incremental build with
@@ -180,10 +263,13 @@ def make_case(name: str, seed: int) -> dict:
         project, history = e3_gen.gen_case(seed, max_phases=2)
         history = [{"edits": ph.get("edits", []), "build": ph.get("build", {})} for ph in history]
         kw = {"resources": "tok:1"}
+    elif name.startswith("st-"):
+        project, history = fam_startup(rng, name[3:])
+        kw = {}
     else:
         project, history = dict(FAMILIES)[name](rng)
         kw = {}
-    crash_phase = 0 if seed % 4 == 3 else len(history)
+    crash_phase = 0 if seed % 4 == 3 and not name.startswith("st-") else len(history)
     return {"name": name, "seed": seed, "project": project.to_json(), "history": history[:crash_phase],
             "build": kw}
 
@@ -206,7 +292,11 @@ def _prefix(case: dict, root: str) -> e3.Project:
             for edit in phase.get("edits", []):
                 e3.apply_edit(project, root, edit)
             if i + 1 < len(history):
-                e3.build(root, project.program, env=dict(project.env), **{**kw, **phase.get("build", {})})
+                pkw = {**kw, **phase.get("build", {})}
+                if phase.get("crash") is not None:
+                    e3.build_forked(root, project.program, crash=phase["crash"], env=dict(project.env), **pkw)
+                else:
+                    e3.build(root, project.program, env=dict(project.env), **pkw)
     return project
 
 
@@ -225,7 +315,24 @@ def snapshot(case: dict, dest: str) -> e3.Project:
 def _clone(snap: str, dest: str) -> None:
     """Copy a snapshot (mtimes preserved; inodes differ, which only disables the stat shortcut of
     FileHash.refreshed: every file is re-hashed instead of trusted)."""
-    shutil.copytree(snap, dest, symlinks=True, dirs_exist_ok=True)
+    socks = []
+
+    def skip_sockets(d, names):
+        out = [n for n in names if stat.S_ISSOCK(os.lstat(os.path.join(d, n)).st_mode)]
+        socks.extend(os.path.relpath(os.path.join(d, n), snap) for n in out)
+        return out
+
+    shutil.copytree(snap, dest, symlinks=True, dirs_exist_ok=True, ignore=skip_sockets)
+    # the stale socket of a killed director (a prefix build that was itself killed) is part of what
+    # the next director finds: recreate it as a stale socket file
+    for rel in socks:
+        sk = socket.socket(socket.AF_UNIX)
+        try:
+            sk.bind(os.path.join(dest, rel))
+        except OSError:
+            pass
+        finally:
+            sk.close()
 
 
 def reference(case: dict, snap: str, project: e3.Project) -> e3.BuildResult:
@@ -245,16 +352,43 @@ def points_of(ref: e3.BuildResult) -> list:
     return pts
 
 
-def dump_sql(con, hmap: dict) -> dict:
+def _hash_key(text):
+    """What FileHash equality looks at (digest, mode, size; not mtime, not inode): two clones of a
+    project have equal keys for equal files."""
+    from stepup.core.hash import FileHash
+    fh = FileHash.from_json(text)
+    return f"{bytes(fh.digest).hex()}:{fh.mode}:{fh.size}"
+
+
+def _glob_key(data_text):
+    """The match set of a stored nglob row (what rescan_nglobs compares)."""
+    import json
+    from stepup.core.nglob import NamedGlob
+    from stepup.core.cattrs import json_converter
+    ng = json_converter.structure(json.loads(data_text), NamedGlob)
+    return ng, "\n".join(sorted(str(p) for p in ng.files()))
+
+
+def _num(table: dict, key):
+    if key is None:
+        return None
+    if key not in table:
+        table[key] = len(table) + 1
+    return table[key]
+
+
+def dump_sql(con, hmap: dict, maps: dict | None = None) -> dict:
     """Canonical dump of the persistent tables (the format of harness/e2.py Impl._dump), read with
     plain SQL; file hashes are numbered in order of first appearance (``hmap`` is shared between
-    the dumps that must be comparable)."""
+    the dumps that must be comparable).  With ``maps`` (``{"h", "v", "g"}``, shared by all dumps of a
+    case) hashes are numbered by content (digest, mode, size), and the value column of env_var and
+    the match sets of the nglob table are added (``envvals``, ``nglobs``)."""
     def hid(text):
         if text is None:
             return None
-        if text not in hmap:
-            hmap[text] = len(hmap) + 1
-        return hmap[text]
+        if maps is not None:
+            return _num(maps["h"], _hash_key(text))
+        return _num(hmap, text)
 
     ids = {i: (kind, label) for i, kind, label in con.execute("SELECT i, kind, label FROM node")}
     nodes = sorted((list(ids[i]), None if c is None else list(ids[c]), bool(d))
@@ -269,7 +403,73 @@ def dump_sql(con, hmap: dict) -> dict:
     shash = sorted(ids[n][1] for (n,) in con.execute("SELECT node FROM step_hash"))
     envs = sorted((ids[n][1], name, bool(dy)) for n, name, dy in con.execute(
         "SELECT node, name, dynamic FROM env_var"))
-    return {"nodes": nodes, "files": files, "steps": steps, "deps": deps, "shash": shash, "envs": envs}
+    out = {"nodes": nodes, "files": files, "steps": steps, "deps": deps, "shash": shash, "envs": envs}
+    if maps is not None:
+        out["envvals"] = sorted(((ids[n][1], name, _num(maps["v"], value)) for n, name, value in con.execute(
+            "SELECT node, name, value FROM env_var")), key=lambda t: (t[0], t[1]))
+        out["nglobs"] = sorted((i, ids[n][1], _num(maps["g"], _glob_key(data)[1]))
+                               for i, n, data in con.execute("SELECT i, node, data FROM nglob"))
+    return out
+
+
+def observe_world(root: str, env: dict, maps: dict) -> dict:
+    """What a director started in ``root`` with environment ``env`` would see outside its database,
+    in the numbering of ``maps``: the value of every tracked variable, the hash of every path that
+    has a file row, the fresh scan of every stored nglob."""
+    from stepup.core.hash import FileHash
+    world = {"env": [], "disk": [], "glob": []}
+    db = os.path.join(root, ".stepup", "graph.db")
+    if not os.path.exists(db):
+        return world
+    with tempfile.TemporaryDirectory(prefix="c05w-") as tmp:
+        con = sqlite3.connect(_copy_db(root, tmp))
+        try:
+            names = sorted({r[0] for r in con.execute("SELECT name FROM env_var")})
+            paths = sorted(r[0] for r in con.execute(
+                "SELECT label FROM node JOIN file ON file.node = node.i WHERE kind = 'file'"))
+            globs = con.execute("SELECT i, data FROM nglob").fetchall()
+        finally:
+            con.close()
+    for name in names:
+        value = env[name] if name in env else os.environ.get(name)
+        if value is not None:
+            world["env"].append([name, _num(maps["v"], value)])
+    with contextlib.chdir(root):
+        for path in paths:
+            try:
+                fh = FileHash.unknown().refreshed(path)
+            except Exception:  # noqa: BLE001  (a directory used as a file, ...): not observable
+                continue
+            if not fh.is_unknown:
+                world["disk"].append([path, _num(maps["h"], _hash_key(fh.to_json()))])
+        for i, data in globs:
+            from stepup.core.nglob import NamedGlob
+            old, old_key = _glob_key(data)
+            fresh = NamedGlob(old.pattern, old.subs)
+            fresh.glob()
+            key = "\n".join(sorted(str(p) for p in fresh.files()))
+            world["glob"].append([i, _num(maps["g"], key)])
+    return world
+
+
+JOB_LOOP_POINT = {"kind": "commit", "site": "Scheduler.pop_next_job", "nth": 1, "when": "before"}
+
+
+def state_after_startup(src: str, project: e3.Project, kw: dict, maps: dict):
+    """The persistent tables right after the complete startup sequence of a build started on a copy
+    of ``src``: the director is killed before the first transaction of its job loop.  Returns
+    (dump, None) or (None, reason)."""
+    with tempfile.TemporaryDirectory(prefix="c05u-") as tmp:
+        _clone(src, tmp)
+        out = e3.build_forked(tmp, project.program, crash=dict(JOB_LOOP_POINT), env=dict(project.env), **kw)
+        if not out.crashed:
+            err = None if out.result is None else out.result.error
+            return None, f"the job loop was not reached ({err})"
+        con = sqlite3.connect(os.path.join(tmp, ".stepup", "graph.db"))
+        try:
+            return dump_sql(con, {}, maps), None
+        finally:
+            con.close()
 
 
 def _copy_db(root: str, dest: str) -> str:
@@ -280,9 +480,36 @@ def _copy_db(root: str, dest: str) -> str:
     return os.path.join(dest, "graph.db")
 
 
-def sample_points(ref: e3.BuildResult, rng: random.Random, n: int) -> list:
+JOB_LOOP_SITES = ("Scheduler.pop_next_job",)
+
+
+def startup_commits(ref: e3.BuildResult) -> int:
+    """Number of commit points of the startup sequence of a build: everything before the first
+    transaction of the job loop (Trellis.initialize, Scheduler.initialize, initialize_boot inside
+    serve, reset_interrupted_steps, rescan_env_vars, rescan_files and its hash jobs, rescan_nglobs,
+    reconcile_targets inside serve)."""
+    for i, (site, _wrote) in enumerate(ref.commit_points):
+        if site in JOB_LOOP_SITES:
+            return i
+    return len(ref.commit_points)
+
+
+def startup_points(ref: e3.BuildResult, both: bool = False) -> list:
+    """Every crash point of the startup sequence: after each of its commits, and before each one
+    that wrote something (``both``: before every one)."""
+    pts = []
+    for k in range(1, startup_commits(ref) + 1):
+        if both or ref.commit_points[k - 1][1]:
+            pts.append({"kind": "commit", "k": k, "when": "before"})
+        pts.append({"kind": "commit", "k": k, "when": "after"})
+    return pts
+
+
+def sample_points(ref: e3.BuildResult, rng: random.Random, n: int, startup: bool = False,
+                  both: bool = False) -> list:
     """n crash points of a reference build: the windows that matter most first (one each), then
     up to two file-system stages, then a uniform sample of the remaining commit points.
+    ``startup``: every point of the startup sequence comes first and is never cut off.
       * before the commit of a hash job that follows the completion of a step: the declaring step
         is done, its newly declared static file is still UNCONFIRMED (stray UNCONFIRMED row);
       * after a dispatch commit: a step is RUNNING/CHECKING, its command has not started;
@@ -295,6 +522,10 @@ def sample_points(ref: e3.BuildResult, rng: random.Random, n: int) -> list:
         if p not in picks:
             picks.append(p)
 
+    first = startup_points(ref, both) if startup else []
+    for p in first:
+        add(p)
+    n = max(n, 0) + len(first)
     for k in range(2, len(cps) + 1):
         if cps[k - 1][0] == "Executor._run_hash_job" and cps[k - 2][0] == "Executor.execute_job":
             add({"kind": "commit", "k": k, "when": "before"})
@@ -455,6 +686,14 @@ def classify(info: dict, ref: e3.BuildResult, db: dict, rr: e3.BuildResult, rr2:
         if node is not None and node["props"].get("state") in (["SUCCEEDED"], ["FAILED"]):
             if label not in rr.executed():
                 add("interrupted-step-not-rerun", f"{label} was RUNNING at the crash but the restart did not execute it")
+    # -- a kill inside the startup sequence: no command had run, so the restart has the whole build
+    #    before it and must run every command the uninterrupted build ran (the observable form of
+    #    "the evidence of a change is only discarded together with marking the affected steps") ----
+    if info["kind"] == "commit" and info["k"] <= startup_commits(ref):
+        lost = sorted(set(ref.executed()) - set(rr.executed()))
+        if lost:
+            add("startup-change-lost", f"killed inside the startup sequence; the uninterrupted build executed {lost} "
+                                       f"but the restarted build did not (it executed {rr.executed()})")
     # -- result --------------------------------------------------------------------------------
     diffs = e3.diff_results(rr, ref, digests=True)
     for d in diffs:
@@ -491,8 +730,29 @@ def classify(info: dict, ref: e3.BuildResult, db: dict, rr: e3.BuildResult, rr2:
     return fails
 
 
-def check_point(case: dict, snap: str, project: e3.Project, ref: e3.BuildResult, point: dict) -> dict:
-    """Crash the last build of ``case`` at ``point``, restart, compare."""
+def startup_probe(tmp: str, project: e3.Project, kw: dict, su: dict) -> dict:
+    """For a kill inside the startup sequence (``tmp`` holds what the killed director left): the
+    crashed tables and the world in the numbering of the case, and the tables right after the
+    complete startup sequence of the restarted director (run on a copy)."""
+    maps = su["maps"]
+    probe = {}
+    con = sqlite3.connect(os.path.join(tmp, ".stepup", "graph.db"))
+    try:
+        if con.execute("SELECT count(*) FROM sqlite_master WHERE name = 'env_var'").fetchone()[0] == 0 \
+                or con.execute("SELECT count(*) FROM node").fetchone()[0] == 0:
+            return probe
+        probe["x0"] = dump_sql(con, {}, maps)
+    finally:
+        con.close()
+    probe["world"] = observe_world(tmp, dict(project.env), maps)
+    probe["after"], probe["after_error"] = state_after_startup(tmp, project, kw, maps)
+    return probe
+
+
+def check_point(case: dict, snap: str, project: e3.Project, ref: e3.BuildResult, point: dict,
+                su: dict | None = None) -> dict:
+    """Crash the last build of ``case`` at ``point``, restart, compare.  ``su`` (startup cases):
+    ``{"maps", "after"}``, the numbering of the case and the tables after the uninterrupted startup."""
     with tempfile.TemporaryDirectory(prefix="c05-") as tmp:
         _clone(snap, tmp)
         kw = _last_kw(case)
@@ -501,15 +761,49 @@ def check_point(case: dict, snap: str, project: e3.Project, ref: e3.BuildResult,
             # the point was not reached (a k beyond what this run produced): nothing to check
             return {"point": point, "crashed": False, "fails": [], "info": None, "db": {}}
         db = inspect_db(tmp)
+        in_startup = out.crash_info["kind"] == "commit" and out.crash_info["k"] <= startup_commits(ref)
+        if su is not None and in_startup and db.get("exists"):
+            db["startup"] = startup_probe(tmp, project, kw, su)
         rr = e3.build(tmp, project.program, env=dict(project.env), **kw)
         fails = classify(out.crash_info, ref, db, rr, None)
+        if su is not None and "after" in db.get("startup", {}):
+            fails = startup_state_fails(out.crash_info, db["startup"], su) + fails
         if any(f["kind"] == "orphan" for f in fails):
             rr2 = e3.build(tmp, project.program, env=dict(project.env), **kw)
             fails = classify(out.crash_info, ref, db, rr, rr2)
         return {"point": point, "crashed": True, "info": out.crash_info, "fails": fails,
                 "db": {k: db.get(k) for k in ("running", "checking", "unconfirmed", "nodes", "dump0", "dump2",
-                                              "strict_open", "reset_error", "exists")},
+                                              "strict_open", "reset_error", "exists", "startup")},
                 "restart_executed": rr.executed(), "restart_rc": rr.returncode}
+
+
+DUMP_TABLES = ("nodes", "files", "steps", "deps", "shash", "envs", "envvals", "nglobs")
+
+
+def startup_state_fails(info: dict, probe: dict, su: dict) -> list:
+    """The tables after the startup sequence of the restarted director must be those after the
+    startup sequence that was not interrupted (the conclusion of C05_startup_crash_restart, observed
+    on the implementation): same PENDING steps, same file states, same remembered values."""
+    window = _window(info)
+    if probe.get("after") is None or su.get("after") is None:
+        if (probe.get("after") is None) != (su.get("after") is None):
+            return [{"kind": "startup-restart-differs", "signature": f"C05:startup-restart-differs:{window}",
+                     "detail": f"startup after the kill: {probe.get('after_error')}; uninterrupted: "
+                               f"{su.get('after_error')}"}]
+        return []
+    bad = []
+    for table in DUMP_TABLES:
+        a, b = probe["after"][table], su["after"][table]
+        if a != b:
+            only_a = [r for r in a if r not in b][:3]
+            only_b = [r for r in b if r not in a][:3]
+            bad.append(f"{table}: restarted {only_a} uninterrupted {only_b}")
+    if not bad:
+        return []
+    return [{"kind": "startup-restart-differs", "signature": f"C05:startup-restart-differs:{window}",
+             "detail": "the tables after the startup sequence of the restarted director differ from those after "
+                       "the uninterrupted startup sequence (step: label, state, need, deferred, defer_count, "
+                       "holding; file: path, state, hash id; envvals: step, name, value id): " + "; ".join(bad)}]
 
 
 def run_job(job: dict) -> dict:
@@ -523,10 +817,16 @@ def run_job(job: dict) -> dict:
             pts = job["points"]
         elif job.get("sample") is not None:
             rng = random.Random(f"c05-pts-{case['name']}-{case['seed']}-{job.get('seed', 0)}")
-            pts = sample_points(ref, rng, job["sample"])
-        results = [check_point(case, snap, project, ref, pt) for pt in pts]
+            pts = sample_points(ref, rng, job["sample"], startup=bool(job.get("startup")),
+                                both=bool(job.get("startup_both")))
+        su = None
+        if job.get("startup"):
+            su = {"maps": {"h": {}, "v": {}, "g": {}}}
+            su["after"], su["after_error"] = state_after_startup(snap, project, _last_kw(case), su["maps"])
+        results = [check_point(case, snap, project, ref, pt, su) for pt in pts]
     return {"case": case, "ref": {"rc": ref.returncode, "error": ref.error, "commits": len(ref.commit_points),
                                   "stages": len(ref.stage_points), "executed": ref.executed(),
+                                  "startup_commits": startup_commits(ref),
                                   "sites": sorted({s for s, _ in ref.commit_points})},
             "results": results}
 
